@@ -463,7 +463,21 @@ type Integer interface {
 // (C01, C02, C04), and atomics stay scheduling points.
 var shmPointsOff bool
 
-func ShmPoints(on bool) { shmPointsOff = !on }
+func ShmPoints(on bool) { shmPointsOff = !on; shmOnlyLo, shmOnlyHi = 0, 0 }
+
+// ShmPointsOnly restricts the scheduling points of plain shared-memory accesses to one region (the memory under
+// study); plain accesses elsewhere (another shared structure the scenario merely uses) are not points.
+var shmOnlyLo, shmOnlyHi uintptr
+
+func ShmPointsOnly(mem []byte) {
+	shmPointsOff = false
+	shmOnlyLo = uintptr(unsafe.Pointer(&mem[0]))
+	shmOnlyHi = shmOnlyLo + uintptr(len(mem))
+}
+
+func shmSkip(p unsafe.Pointer) bool {
+	return shmPointsOff || (shmOnlyHi != 0 && (uintptr(p) < shmOnlyLo || uintptr(p) >= shmOnlyHi))
+}
 
 // Ld is a plain load from shared memory: a scheduling point, then the load (rule A6).
 func Ld[T Integer](p *T) T {
@@ -471,7 +485,7 @@ func Ld[T Integer](p *T) T {
 	if x == nil {
 		return *p
 	}
-	if shmPointsOff {
+	if shmSkip(unsafe.Pointer(p)) {
 		return *p
 	}
 	if !x.aborting {
@@ -485,7 +499,7 @@ func Ld[T Integer](p *T) T {
 // St is a plain store to shared memory: a scheduling point, then the store.
 func St[T Integer](p *T, v T) {
 	x := X
-	if x == nil || shmPointsOff {
+	if x == nil || shmSkip(unsafe.Pointer(p)) {
 		*p = v
 		return
 	}
